@@ -64,6 +64,9 @@ class Batching:
                 self.emitted[b].extend(pleaves)
             cur_leaves = [uid(x) for x in leaves_of(out)] if out is not None else []
             self.prev_out[b] = (out, cur_leaves)
+            if not hasattr(dev, '_in_progress_batch'):
+                ctx.count('batcher_internals_not_visible')
+                continue
             wip = dev._in_progress_batch
             wip_leaves = [uid(x) for x in leaves_of(wip)] if wip is not None else []
             inp = dev._part
